@@ -21,6 +21,10 @@ class NotC(Exception):
         self.stmt = stmt
         self.why = why
 
+    def __reduce__(self):
+        # picklable: raised inside pool workers (an exception that cannot be rebuilt in the parent hangs the pool)
+        return (NotC, (self.stmt, self.why))
+
 
 @dataclass
 class OdeText:
